@@ -267,10 +267,12 @@ Definition batch_step (t : nat) (s : gstate) (st : best_t * list (list (list Qc)
   let cands := candidates t b cmask (nth b ssk' []) in
   let outs := map (fun c => let '(p, (dg, (cm, krow))) := c in obj dg cm (g_selcm s) krow (g_ssK s)) cands in
   let am := argmax (map fst outs) in
-  let bv := fst (nth am outs (0%Qc, [])) in
-  let better := match best with None => true | Some (v, _, _, _) => Qcltb v bv end in
-  if better then (Some (bv, b, fst (nth am cands (0, (0%Qc, (0%Qc, [])))), snd (nth am outs (0%Qc, []))), ssk')
-  else (best, ssk').
+  match nth_error (combine cands outs) am with
+  | None => (best, ssk')              (* unreachable: the batch has a candidate, argmax is in range *)
+  | Some (c, (bv, bw)) =>
+      let better := match best with None => true | Some (v, _, _, _) => Qcltb v bv end in
+      if better then (Some (bv, b, fst c, bw), ssk') else (best, ssk')
+  end.
 
 Definition upd2 {A} (b p : nat) (v : A) (t : list (list A)) : list (list A) := upd b (upd p v (nth b t [])) t.
 
